@@ -58,7 +58,15 @@ func parseSCIONReq(raw []byte) (sl *slayers.SCION, ul *slayers.UDP, ok bool) {
 
 // a SCION/UDP packet answering the request reqRaw with the given UDP payload;
 // foreign: from another AS than the one the request went to
-func wrapSCION(reqRaw []byte, payload []byte, foreign bool, tsForm int, ts time.Time) []byte {
+type scionOpts struct {
+	foreign bool      // from another AS than the one the request went to
+	tsForm  int       // end-to-end receive-timestamp option (1 software, 2 hardware form)
+	ts      time.Time // its value
+	hbh     bool      // a hop-by-hop option of the same type with another value
+}
+
+func wrapSCION(reqRaw []byte, payload []byte, o scionOpts) []byte {
+	foreign, tsForm, ts := o.foreign, o.tsForm, o.ts
 	sl, ul, ok := parseSCIONReq(reqRaw)
 	if !ok {
 		panic("c03: cannot parse the client's SCION request")
@@ -98,6 +106,17 @@ func wrapSCION(reqRaw []byte, payload []byte, foreign bool, tsForm int, ts time.
 		}
 		buffer.PushLayer(e2e.LayerType())
 		sl.NextHdr = slayers.End2EndClass
+	}
+	if o.hbh {
+		hbh := slayers.HopByHopExtn{}
+		hbh.NextHdr = sl.NextHdr
+		hbh.Options = []*slayers.HopByHopOption{{OptType: scion.OptTypeTimestamp,
+			OptData: tsOptData(1+len(payload)%2, realNow().Add(-3*time.Second))}}
+		if err := hbh.SerializeTo(buffer, options); err != nil {
+			panic(err)
+		}
+		buffer.PushLayer(hbh.LayerType())
+		sl.NextHdr = slayers.HopByHopClass
 	}
 	if err := sl.SerializeTo(buffer, options); err != nil {
 		panic(err)
